@@ -27,8 +27,8 @@ TITLE_CHARS = "ABCxyz &<>' "
 
 def shards(tier, seed):
     out = []
-    n = 3000 if tier == "quick" else 100000
-    parts = 6 if tier == "quick" else 16
+    n = 8000 if tier == "quick" else 100000
+    parts = 8 if tier == "quick" else 16
     for i in range(parts):
         out.append({"name": "exports-%d" % i, "kind": "exports", "n": n // parts, "weight": 8})
     out.append({"name": "systematic", "kind": "systematic", "weight": 3})
